@@ -99,7 +99,12 @@ def check_merge(tracks, merged):
         r = _io(m)
         return r - off if r > 0 else r
     real = [mido.MidiTrack(mk(dt, i) for dt, i in t) for t in tracks]
-    snapshot = [[(id(m), m.copy()) for m in t] for t in real]
+    if (off // 8) % 3 == 2:
+        # immutable (frozen) messages as input
+        from mido.frozen import freeze_message
+        real = [mido.MidiTrack(freeze_message(m) for m in t) for t in real]
+    # (a snapshot that does not go through the library's own copy())
+    snapshot = [[(id(m), type(m), dict(vars(m)), hash(m) if (off // 8) % 3 == 2 else 0) for m in t] for t in real]
     outs = []
     try:
         outs.append(('merge_tracks', mido.merge_tracks(real)))
@@ -132,14 +137,53 @@ def check_merge(tracks, merged):
     # the caller owns the results: modifying them must not influence anything else
     for how, res in outs:
         for m in res:
-            m.time += 1000
+            try:
+                m.time += 1000
+            except (AttributeError, ValueError):
+                pass                       # a frozen result
     # inputs untouched
     for t, snap in zip(real, snapshot):
         if len(t) != len(snap):
             return 'input-modified', 'track length changed'
-        for m, (oid, cp) in zip(t, snap):
-            if id(m) != oid or not (m == cp):
-                return 'input-modified', 'input message changed to %r (was %r)' % (m, cp)
+        for m, (oid, ty, vd, h) in zip(t, snap):
+            if id(m) != oid or type(m) is not ty or dict(vars(m)) != vd or (h and hash(m) != h):
+                return 'input-modified', 'input message changed to %s (was %s %r)' % (core.srepr(m), ty.__name__, vd)
+    return None
+
+
+def check_million(n=(1 << 20) + 1):
+    """Scale: more than 2**20 messages in one merge.  The input has a shape whose
+    merge is immediate: track A has n-3 notes one tick apart, track B three
+    controller messages at ticks 5 (a tie with A, A first), n+5 and n+12."""
+    import mido
+    core.stir()
+    M = mido.Message
+    a = mido.MidiTrack(M('note_on', note=i % 128, time=1) for i in range(n - 3))
+    b = mido.MidiTrack([M('control_change', control=1, time=5), M('control_change', control=2, time=n),
+                        M('control_change', control=3, time=7)])
+    try:
+        r = mido.merge_tracks([a, b], skip_checks=True)
+    except Exception as e:
+        return 'raises/%s/scale' % type(e).__name__, 'merging %d messages raised %r' % (n, e)
+    if len(r) != n + 1:
+        return 'wrong-result/scale', 'merging %d messages gave %d' % (n, len(r))
+    k = 0
+    for pos, m in enumerate(r):
+        if pos == 5:
+            ok = m.type == 'control_change' and m.control == 1 and m.time == 0
+        elif pos == n - 2:
+            ok = m.type == 'control_change' and m.control == 2 and m.time == 8
+        elif pos == n - 1:
+            ok = m.type == 'control_change' and m.control == 3 and m.time == 7
+        elif pos == n:
+            ok = m.type == 'end_of_track' and m.time == 0
+        else:
+            ok = m.type == 'note_on' and m.note == k % 128 and m.time == 1
+            k += 1
+        if not ok:
+            return 'wrong-result/scale', 'merging %d messages: message %d of the result is %s' % (n, pos, core.srepr(m))
+    if any(m.time != 1 for m in a[:1000]) or len(a) != n - 3 or b[1].time != n:
+        return 'input-modified/scale', 'inputs changed'
     return None
 
 
@@ -160,6 +204,9 @@ def worker(lines):
 
 
 def replay(case):
+    if case.get('kind') == 'million':
+        r = check_million()
+        return r and '%s: %s' % r
     if case.get('random'):
         rng = random.Random(case['rseed'])
         tracks = random_tracks(rng)
@@ -222,6 +269,10 @@ def validate(ctx, recs):
 
 def run(ctx):
     thorough = ctx.tier == 'thorough'
+    # scale (runs in its own process while TLC works)
+    import multiprocessing as mp_
+    scale_pool = mp_.get_context('fork').Pool(1)
+    scale_job = scale_pool.apply_async(check_million)
     plans = [(2, 3, '{0, 1, 2}')] if not thorough else [(2, 3, '{0, 1, 2, 5}'), (3, 2, '{0, 1, 2}')]
     for mt, me, dl in plans:
         pr = core.ParallelReplay(ctx, worker, batch_size=2000)
@@ -250,3 +301,12 @@ CHECK_DEADLOCK FALSE
     ctx.exhaustive = True
     ctx.constants = {'plans': plans}
     ctx.assumptions += ['message content is represented by a distinct note_on per event; end_of_track by the real meta message']
+    r = scale_job.get(timeout=1800)
+    scale_pool.close()
+    ctx.replayed += 1
+    ctx.note('largest_merge_messages', (1 << 20) + 1)
+    if r:
+        ctx.violation('merge/' + r[0], {'kind': 'million'}, r[1])
+    # re-entrancy: two threads inside these functions at once, a switch possible before every statement
+    from .. import conc
+    conc.run_scenarios(ctx, 'C12', 2 if ctx.tier == 'thorough' else 1)
